@@ -483,17 +483,30 @@ func c19RoundTrip(r *vr.Report, c c19Msg) {
 		r.Violationf("C19:roundtrip:mrt:reparse-error:"+c.kind, cs, "%s serialises to %x which does not parse back: %v", c.name, b1, err)
 		return
 	}
-	// normalisation: RFC 6396 4.3.4 abbreviates MP_REACH_NLRI inside a RIB entry to the next hop; the
-	// attribute's cached header Length (full form when constructed, abbreviated form when parsed) is a
-	// derived wire detail, the content and the re-serialised bytes are compared
+	// normalisation: the header Length cached inside an MP_REACH/MP_UNREACH attribute object is a derived
+	// wire detail that depends on the encoding in force (RFC 6396 4.3.4 abbreviates MP_REACH_NLRI inside a
+	// RIB entry to the next hop; in the *_ADDPATH subtypes every NLRI grows by its 4-octet path
+	// identifier): the constructor caches one value, the parser another. The attribute content and the
+	// re-serialised bytes are compared.
+	zeroLen := func(attrs []bgp.PathAttributeInterface) {
+		for _, a := range attrs {
+			switch mp := a.(type) {
+			case *bgp.PathAttributeMpReachNLRI:
+				mp.Length = 0
+			case *bgp.PathAttributeMpUnreachNLRI:
+				mp.Length = 0
+			}
+		}
+	}
 	for _, mm := range []*MRTMessage{m, m2} {
-		if rib, ok := mm.Body.(*Rib); ok {
-			for _, e := range rib.Entries {
-				for _, a := range e.PathAttributes {
-					if mp, ok := a.(*bgp.PathAttributeMpReachNLRI); ok {
-						mp.Length = 0
-					}
-				}
+		switch b := mm.Body.(type) {
+		case *Rib:
+			for _, e := range b.Entries {
+				zeroLen(e.PathAttributes)
+			}
+		case *BGP4MPMessage:
+			if u, ok := b.BGPMessage.Body.(*bgp.BGPUpdate); ok && b.isAddPath {
+				zeroLen(u.PathAttributes)
 			}
 		}
 	}
